@@ -26,7 +26,7 @@ PROPS = {
     },
     'C07': {
         'harness': 'c07',
-        'rule': 'pools of 110-160 distinct valid rules (feature grammar over exception, important, $domain incl. restricted-only, content types, third-party/match-case, $dnstype, $ctag incl. negated-only, $client incl. negated-only, $denyallow, badfilter, dnsrewrite, document-level modifiers; plus general grammar rules and add-one-modifier variants): IsHigherPriority on ALL ordered pairs of each pool (exhaustive per pool), the harness additionally checks irreflexivity, asymmetry, transitivity and transitivity of ties on all triples of the implementation relation; candidate lists of 1-7 rules through GetDNSBasicRule and NewMatchingResult(..).GetBasicResult; non-trivial = every pairs case, select cases with >= 2 candidates',
+        'rule': 'pools of 110-160 distinct valid rules (feature grammar over exception, important, $domain incl. restricted-only, content types, third-party/match-case, $dnstype, $ctag incl. negated-only, $client incl. negated-only, $denyallow, badfilter, dnsrewrite, document-level modifiers; plus general grammar rules and add-one-modifier variants): IsHigherPriority on ALL ordered pairs of each pool (exhaustive per pool), the harness additionally checks irreflexivity, asymmetry, transitivity and transitivity of ties on all triples of the implementation relation; candidate lists of 1-7 rules through GetDNSBasicRule and NewMatchingResult(..).GetBasicResult; candidate lists of 1-6 rules ($important, generic, domain-specific and exception rules) together with 0-3 rules matching the page ($genericblock / $urlblock / $document exceptions, some disabled by $badfilter) through NewMatchingResult(rs, src).BasicRule, with the harness checking that the winner is an enabled candidate no enabled candidate outranks and that some rule is selected whenever one competes; non-trivial = every pairs case, select cases with >= 2 candidates',
         'correspondence': 'full pair matrix of IsHigherPriority vs is_higher_priority of the model on rules parsed by the model from the same texts; texts of the selected rules',
         'assumptions': [],
     },
